@@ -12,8 +12,8 @@ CLAIMS = {
          "Sub-evaluations (varEvaler.eval, reference.eval/resolve, cfgPath.GetValue) are named by ghost functions of (expression or path string, configuration): assumed to be functions of these while one setting is read; the lexer/parser building the expression tree ($$ and $} escapes) and splice concatenation (bytes.Buffer) are not under contract; resolver callbacks are dynamic calls assumed not to touch library state.", "6/C02"),
  "C03": ("Bit-precise proof (64-bit vectors + IEEE-754 theory, loop-free so complete over the full domain) that the numeric conversion kernels return the exact value or an error: negative->unsigned, >MaxInt64->signed, NaN/out-of-range float->integer are errors, in-range results equal the mathematical value.",
          "Trusted: Go semantics of in-range float->int conversion (truncation), math.IsNaN contract, strconv for string sources; dispatch through reflect (doReifyPrimitive) is assumed, not proved.", "6/C03"),
- "C04": ("Proof of the validator kernels against the statement's table: validatePositive, validateNonZero, validateMin and validateMax accept exactly the values the tag promises for every signed, unsigned, float (64-bit vectors + IEEE-754: NaN, -0, extremes) and time.Duration value and every parameter string (bounds named by the strconv/ParseDuration contracts), param2Duration reads a bare number as seconds and a suffixed one as a duration, and runValidators returns nil only if every validator of the tag list accepted the value and otherwise returns the first rejection (loop invariant over the list).",
-         "Kernel level only: that reifyStruct/reifyMergeValue/validateStruct/validateArray/validateMap reach every field, element and default (the traversal half of the statement, driven by reflect) is not under contract; validator callbacks are dynamic calls assumed not to modify library state (dynpure); reflect.ValueOf/Kind/Int/Uint/Float are trusted contracts over ghost anyKind/anyInt/anyUint/anyFloat; the float->Duration conversion of param2Duration is proved for products inside the int64 range only (rte.conv of that line not claimed: the parameter is a struct tag, not user input).", "6/C04"),
+ "C04": ("Proof of the validator kernels against the statement's table: validatePositive, validateNonZero, validateMin and validateMax accept exactly the values the tag promises for every signed, unsigned, float (64-bit vectors + IEEE-754: NaN, -0, extremes) and time.Duration value and every parameter string (bounds named by the strconv/ParseDuration contracts), param2Duration reads a bare number as seconds and a suffixed one as a duration, runValidators returns nil only if every validator of the tag list accepted the value and otherwise returns the first rejection (loop invariant over the list), and the list/array traversal reifyDoArray returns successfully only if every element it keeps from the pre-filled target (outside the window written from the configuration) passed the recursive validation (loop invariant over the index, for every start offset and length).",
+         "Kernel level plus one traversal: that reifyStruct/reifyGetField/validateStruct/validateArray/validateMap reach every field and default (the rest of the traversal half of the statement, driven by reflect) is not under contract; the recursive validation of one element is named by a ghost function of its reflect handle (recValid), assumed stable while one container is traversed; validator callbacks are dynamic calls assumed not to modify library state (dynpure); reflect.ValueOf/Kind/Int/Uint/Float are trusted contracts over ghost anyKind/anyInt/anyUint/anyFloat; the float->Duration conversion of param2Duration is proved for products inside the int64 range only (rte.conv of that line not claimed: the parameter is a struct tag, not user input).", "6/C04"),
  "C06": ("Proof of the shared kernels of both directions and of the numeric leaves of the round trip: parseTags (name = text before the first comma; ignore and squash/inline set exactly when one of the later options says so; the merge policy is the default when no option names one and the last option's policy when it names one) and fieldName (tag name wins, otherwise the lower-cased field name) are proved for all strings with loop invariants; normalizeValue maps every signed kind to cfgInt (<= 0) or cfgUint (> 0), every unsigned kind to cfgUint and every float kind to cfgFloat holding exactly the reflect value; three ghost clients (lemmaC06Int64/Uint64/Float64, compiled only under the verif tag) compose normalizeValue with the conversion kernels of C03 and prove that the number read back is the number written.",
          "Leaf level only: normalizeStructInto/reifyStruct/accessField (field enumeration, inline, pointers, slices, arrays, maps - reflect driven) are not under contract; duration and regexp leaves depend on time.ParseDuration(d.String()) == d and regexp.Compile(r.String()), which would be pure assumptions; boxed-scalar kinds (axiom group boxkinds) and reflect accessors are trusted; chaseValue is proved only for non-pointer, non-interface values.", "6/C06"),
  "C07": ("Proof of absence of run-time errors in two tiers. (a) Fully annotated: the flag-value scanners of parse/parse.go, the splice lexer and parseVarExp, idxField.SetValue - index, slice, string index, nil dereference, type assertion, division, make, explicit panic, loop variants, callee preconditions at every call site, and the allocation bound of one setter call. (b) Zero-annotation sweep over 268 further functions of all packages (every function whose obligations discharge without any contract): their own index / slice / string-index / type-assertion / division / make / nil-map / explicit-panic sites and the preconditions of the reflect functions they call (Type.Out/In, Value.Index: rte.extern), generated from the SSA, with interval invariants of range and counting loops inferred and proved.",
